@@ -445,7 +445,7 @@ func (x *Run) doSelect(fr *Frame, st *State, ins *ssa.Select, outs *[]Outcome) [
 					}
 				}
 				if slot < len(ret.Tup) {
-					s.events = append(s.events, Event{Name: "recv", Args: []Val{ch, ret.Tup[slot]}})
+					s.events = append(s.events, Event{Name: "recv", Args: []Val{ch, ret.Tup[slot]}, Ret: ok})
 					s.assume(implies(not(ok.T), eq(ret.Tup[slot].T, x.d.zero(tup.At(slot).Type()))))
 				}
 			}
